@@ -68,11 +68,20 @@ def dkey(k):
                  z3.If(is_None(k), sv("None"), z3.If(is_Bool(k), z3.If(bval(k), sv("1"), sv("0")), sv("?"))))))
 
 
-def ref_upper_bound(r):
+def ref_upper_bound(r, depth=0):
     """b such that r < b follows from the closedness / parameter assumptions (syntactic), else None."""
     r = simp(r)
     if z3.is_int_value(r):
         return r.as_long() + 1
+    if depth < 6 and z3.is_app(r) and r.decl().kind() == z3.Z3_OP_ITE:
+        a, b = ref_upper_bound(r.arg(1), depth + 1), ref_upper_bound(r.arg(2), depth + 1)
+        return None if (a is None or b is None) else max(a, b)
+    if depth < 6 and z3.is_app(r) and r.decl().eq(Val.rval) and z3.is_app(r.arg(0)) and r.arg(0).decl().kind() == z3.Z3_OP_ITE:
+        x = r.arg(0)
+        a, b = ref_upper_bound(rval(x.arg(1)), depth + 1), ref_upper_bound(rval(x.arg(2)), depth + 1)
+        return None if (a is None or b is None) else max(a, b)
+    if z3.is_app(r) and r.decl().eq(Val.rval) and z3.is_app(r.arg(0)) and r.arg(0).decl().eq(Val.VRef):
+        return ref_upper_bound(r.arg(0).arg(0), depth + 1)
     if z3.is_const(r) and r.decl().kind() == z3.Z3_OP_UNINTERPRETED and r.decl().name().endswith("_ref"):
         return 1
     if z3.is_app(r) and r.decl().eq(Val.rval):
@@ -108,10 +117,22 @@ def refs_distinct(ex, st, r1, r2):
 
 def heap_select(ex, st, arr, r, memo=None):
     """select(arr, r) for a ref-indexed heap array, resolving store chains with distinctness knowledge.
-    Memoised on the (shared) heap DAG so merged heaps stay linear."""
+    Memoised on the (shared) heap DAG so merged heaps stay linear; whole results are also remembered across calls
+    (a result computed under a path condition stays valid under every extension of it)."""
     r = simp(r)
     if memo is None:
         memo = {}
+        if st is not None:
+            g = ex.__dict__.setdefault("_hsel_memo", {})
+            gk = (arr.get_id(), r.get_id())
+            cur = frozenset(c.get_id() for c in st.conj)
+            for pset, res in g.get(gk, ()):
+                if pset <= cur:
+                    return res
+            res = heap_select(ex, st, arr, r, memo)
+            g.setdefault(gk, []).append((cur, res))
+            ex.__dict__.setdefault("_keepalive", []).append((arr, r, res))
+            return res
     k = arr.get_id()
     if k in memo:
         return memo[k]
@@ -582,12 +603,20 @@ def binop(ex, st, ctx, op, a, b, node):
         ex.raise_if(st, ctx, z3.Not(z3.Or(numcase, seqcase, strcase)), "TypeError", node=node)
         if st.dead:
             return VNone
+        numres = z3.If(z3.Or(is_Float(a), is_Float(b)), VFloat(as_real(a) * as_real(b)), VInt(as_int(a) * as_int(b)))
         if not is_false(z3.And(st.pc, z3.Or(seqcase, strcase))):
+            bz = simp(b)
+            if z3.is_app(bz) and bz.decl().eq(Val.VInt) and z3.is_int_value(bz.arg(0)) and bz.arg(0).as_long() <= 0:
+                # x * 0: "" for a string, a new empty list / tuple for a sequence
+                def f_seqrep(x):
+                    return ex.branch_val(x, is_Str(a), lambda y: VStr(sv("")),
+                                         lambda y: new_list_seq(ex, y, EMPTY_SEQ, T_LIST))
+                return ex.branch_val(st, numcase, lambda x: numres, f_seqrep)
             sc = st.fork()
             sc.guard(z3.Or(seqcase, strcase))
             ex.unsupported(sc, ctx, "sequence repetition of unknown operand", node)
             st.guard(numcase)
-        return z3.If(z3.Or(is_Float(a), is_Float(b)), VFloat(as_real(a) * as_real(b)), VInt(as_int(a) * as_int(b)))
+        return numres
     if isinstance(op, ast.Div):
         ex.raise_if(st, ctx, z3.Not(z3.And(is_number(a), is_number(b))), "TypeError", node=node)
         ex.raise_if(st, ctx, as_real(b) == 0, "ZeroDivisionError", node=node)
